@@ -616,6 +616,7 @@ class Credits(Mode):
         self.delay.remove('clear_all_credits')
         # pricing tiers will restart when the game starts
         self.credit_units_for_pricing_tiers = 0
+        self.reset_pricing_tier_count_this_game = False
 
     def _reset_timeouts(self):
         if self.credits_config['fractional_credit_expiration_time']:
